@@ -82,3 +82,60 @@ MUTANTS += [
     ("c10-cable-shared-wire", "onl/netdev/wire.py", "        dev2.out = self.wire2\n        self.wire2.out = dev1", "        dev2.out = self.wire1\n        self.wire2.out = dev1", ["C10"]),
     ("c10-delay-drawn-at-put", "onl/netdev/wire.py", "        packet.current_time = self.env.now\n        self.store.put(packet)", "        packet.current_time = self.env.now + (0.25 if self.store.items and len(self.store.items) > 3 else 0)\n        self.store.put(packet)", ["C10"]),
 ]
+
+MUTANTS += [
+    # ---- C11
+    ("c11-no-cap", "onl/netdev/token_bucket.py", "            self.current_bucket = min(\n                self.bucket_size,\n                self.current_bucket + self.rate * (now - self.update_time) / 8.0,\n            )",
+     "            self.current_bucket = (\n                self.current_bucket + self.rate * (now - self.update_time) / 8.0\n            )", ["C11"]),
+    ("c11-refill-no-div8", "onl/netdev/token_bucket.py", "self.current_bucket + self.rate * (now - self.update_time) / 8.0,", "self.current_bucket + self.rate * (now - self.update_time) / 4.0,", ["C11"]),
+    ("c11-wait-leaves-tokens", "onl/netdev/token_bucket.py", "                self.current_bucket = 0.0\n                self.update_time = env.now\n            else:",
+     "                self.current_bucket = 0.0\n            else:", ["C11"]),
+    ("c11-peak-ignored-small", "onl/netdev/token_bucket.py", "            if self.peak:\n", "            if self.peak and packet.size > 200:\n", ["C11"]),
+    ("c11-trtb-colours-swapped", "onl/netdev/two_level_token_bucket.py", "                    self.current_bucket_commit = 0.0\n                    packet.color = \"yellow\"\n                    self.update_time = env.now\n                else:\n                    self.current_bucket_commit -= packet.size\n                    self.current_bucket_peak -= packet.size\n                    packet.color = \"green\"",
+     "                    self.current_bucket_commit = 0.0\n                    packet.color = \"green\"\n                    self.update_time = env.now\n                else:\n                    self.current_bucket_commit -= packet.size\n                    self.current_bucket_peak -= packet.size\n                    packet.color = \"yellow\"", ["C11"]),
+    ("c11-trtb-red-no-wait", "onl/netdev/two_level_token_bucket.py", "                        (packet.size - self.current_bucket_peak) * 8.0 / self.pir\n                    )",
+     "                        (packet.size - self.current_bucket_peak) * 4.0 / self.pir\n                    )", ["C11"]),
+    ("c11-trtb-green-not-debited", "onl/netdev/two_level_token_bucket.py", "                    self.current_bucket_commit -= packet.size\n                    self.current_bucket_peak -= packet.size\n",
+     "                    self.current_bucket_peak -= packet.size\n", ["C11"]),
+    ("c11-trtb-commit-refill-double", "onl/netdev/two_level_token_bucket.py", "                self.current_bucket_commit + self.cir * (now - self.update_time) / 8.0,", "                self.current_bucket_commit + self.cir * (now - self.update_time) / 4.0,", ["C11"]),
+]
+
+MUTANTS += [
+    # ---- C12
+    ("c12-token-only-when-one", "onl/scheduler/base.py", "        if self.total_packets == 0:\n            self.packets_available.put(True)\n        self.add_packet_to_queue(packet)",
+     "        self.add_packet_to_queue(packet)\n        if self.total_packets == 2:\n            self.packets_available.put(True)", ["C12"]),
+    ("c12-counters-before-timeout", "onl/scheduler/base.py", "        self.current_packet = packet\n        yield self.env.timeout(packet.size * 8.0 / self.rate)\n        flow_id = packet.flow_id\n        self.queue_count[flow_id] -= 1",
+     "        self.current_packet = packet\n        flow_id = packet.flow_id\n        self.queue_count[flow_id] -= 1\n        yield self.env.timeout(packet.size * 8.0 / self.rate)", ["C12"]),
+    ("c12-tx-time-rounding", "onl/scheduler/base.py", "        yield self.env.timeout(packet.size * 8.0 / self.rate)\n        flow_id", "        yield self.env.timeout(round(packet.size * 8.0 / self.rate, 3))\n        flow_id", ["C12"]),
+    ("c12-byte-counter-off", "onl/scheduler/base.py", "        self.queue_byte_size[flow_id] -= packet.size", "        self.queue_byte_size[flow_id] -= packet.size if packet.size < 1000 else packet.size - 1", ["C12"]),
+    ("c12-wfq-lifo-same-flow", "onl/scheduler/wfq.py", "        self.store.put(PriorityItem((self.finish_times[class_id], now), packet))", "        self.store.put(PriorityItem((self.finish_times[class_id], -now), packet))", ["C12", "C14"]),
+    # ---- C13
+    ("c13-ascending", "onl/scheduler/sp.py", "key=lambda item: item[1], reverse=True)", "key=lambda item: item[1], reverse=False)", ["C13"]),
+    ("c13-no-rescan", "onl/scheduler/sp.py", "                    # rescan from the highest priority after every transmission\n                    break\n", "", ["C13"]),
+    ("c13-skip-top-when-long", "onl/scheduler/sp.py", "                    if store.size() == 0:\n                        continue", "                    if store.size() == 0 or (store.size() > 4 and prio == self.priorities[0][1]):\n                        continue", ["C13", "C12"]),
+    # ---- C14
+    ("c14-stamp-min", "onl/scheduler/wfq.py", "        self.finish_times[class_id] = max(\n            self.finish_times[class_id], self.vtime\n        )", "        self.finish_times[class_id] = min(\n            self.finish_times[class_id], self.vtime\n        )", ["C14"]),
+    ("c14-F-not-reset", "onl/scheduler/wfq.py", "        for class_id in self.weights.keys():\n            self.finish_times[class_id] = 0.0", "        for class_id in self.weights.keys():\n            self.finish_times.setdefault(class_id, 0.0)", ["C14"]),
+    ("c14-first-stamp-skipped", "onl/scheduler/wfq.py", "        else:\n            self.update_vtime()\n        self.finish_times[class_id] = max(", "        else:\n            self.update_vtime()\n        if len(self.active_set): self.finish_times[class_id] = max(", ["C14"]),
+    ("c14-weight-ignored-in-stamp", "onl/scheduler/wfq.py", ") + packet.size * 8.0 / (self.rate * self.weights[class_id])", ") + packet.size * 8.0 / (self.rate * max(1, self.weights[class_id]))", ["C14"]),
+    ("c14-vc-max-dropped", "onl/scheduler/virtual_clock.py", "        self.aux_vc[class_id] = max(now, self.aux_vc[class_id])", "        self.aux_vc[class_id] = self.aux_vc[class_id]", ["C14"]),
+    ("c14-vc-tie-by-size", "onl/scheduler/virtual_clock.py", "PriorityItem((self.aux_vc[class_id], now), packet)", "PriorityItem((self.aux_vc[class_id], -packet.size), packet)", ["C14", "C12"]),
+    # ---- C15
+    ("c15-quantum-not-scaled", "onl/scheduler/drr.py", "self.MIN_QUANTUM * weight / min_weight", "self.MIN_QUANTUM * weight", ["C15"]),
+    ("c15-credit-not-reset", "onl/scheduler/drr.py", "                            if self.class_count[class_id] == 0:\n                                self.deficit[class_id] = 0.0", "                            pass", ["C15"]),
+    ("c15-wrr-weight-plus-one", "onl/scheduler/wrr.py", "                for _ in range(weight):", "                for _ in range(weight + 1):", ["C15"]),
+    ("c15-rr-double-serve", "onl/scheduler/rr.py", "                if self.queue_count[flow_id] > 0:", "                while self.queue_count[flow_id] > 3:\n                    packet = yield self.stores.get(flow_id).get()\n                    yield env.process(self.send_packet(packet))\n                if self.queue_count[flow_id] > 0:", ["C15"]),
+    ("c15-drr-overdraw", "onl/scheduler/drr.py", "                        if packet.size <= self.deficit[class_id]:\n                            yield env.process", "                        if packet.size <= self.deficit[class_id] + 200:\n                            yield env.process", ["C15"]),
+    ("c15-drr-quantum-every-round-even-empty", "onl/scheduler/drr.py", "                    if count > 0:\n                        self.deficit[class_id] += self.quantum[class_id]", "                    if count >= 0:\n                        self.deficit[class_id] += self.quantum[class_id]", ["C15"]),
+    ("c15-wrr-skip-last-class-when-busy", "onl/scheduler/wrr.py", "                    if self.queue_count[flow_id] > 0:", "                    if self.queue_count[flow_id] > 0 and not (self.total_packets > 6 and flow_id == list(self.weights)[-1]):", ["C15", "C12"]),
+]
+
+MUTANTS += [
+    # ---- C19
+    ("c19-no-stopped-test", "onl/utils/timer.py", "                if not self.stopped:\n                    self.timeout_callback", "                if not self.stopped or self.auto_restart:\n                    self.timeout_callback", ["C19"]),
+    ("c19-expire-not-rebased", "onl/utils/timer.py", "        self.start_time = self.env.now\n        self.timeout = timeout\n        self.expire_time = self.start_time + timeout", "        self.timeout = timeout\n        self.expire_time = self.start_time + timeout", ["C19"]),
+    ("c19-restart-keeps-old-proc", "onl/utils/timer.py", "            self.proc.interrupt(\"restart timer\")\n            self.proc = self.env.process(self.run(self.env))", "            self.proc = self.env.process(self.run(self.env))", ["C19"]),
+    ("c19-auto-rearm-from-expiry", "onl/utils/timer.py", "                        self.expire_time = env.now + self.timeout", "                        self.expire_time = self.start_time + 2 * self.timeout", ["C19"]),
+    ("c19-args-tuple-not-unwrapped", "onl/utils/timer.py", "        elif not isinstance(args, (list, tuple)):", "        elif not isinstance(args, (list, tuple, str)):", []),
+    ("c19-stop-does-not-pull-expiry", "onl/utils/timer.py", "        self.stopped = True\n        self.expire_time = self.env.now", "        self.stopped = self.expire_time > self.env.now", ["C19"]),
+]
